@@ -602,6 +602,13 @@ func (e *Engine) evalSliceExpr(st *State, x *ast.SliceExpr) (Val, error) {
 
 func (e *Engine) evalComposite(st *State, x *ast.CompositeLit) (Val, error) {
 	ty := e.typeOf(x)
+	// T{} of a struct or array type is the zero value of the type
+	if len(x.Elts) == 0 {
+		switch ty.Underlying().(type) {
+		case *types.Struct, *types.Array:
+			return Val{e.ZeroOf(ty), ty}, nil
+		}
+	}
 	switch u := ty.Underlying().(type) {
 	case *types.Struct:
 		cur := smt.App(smt.V, "zero_of", e.TypeTerm(ty))
